@@ -623,3 +623,237 @@ Proof.
   apply lruns_end. unfold lnext. change locals0 with (set_name locals0 []).
   etransitivity; [exact (head_run [] [] [] (TLink a tg) [] _ Ha)|]. reflexivity.
 Qed.
+
+(* ---------- Part 3: tar() on the event stream of a walk ---------- *)
+
+Fixpoint tsize (t : tree) : nat :=
+  match t with
+  | TDir _ ch => S ((fix go (ch : list (bytes * tree)) : nat :=
+                       match ch with [] => O | (_, c) :: r => (tsize c + go r)%nat end) ch)
+  | _ => 1%nat
+  end.
+Definition ksize (ch : list (bytes * tree)) : nat :=
+  (fix go (ch : list (bytes * tree)) : nat := match ch with [] => O | (_, c) :: r => (tsize c + go r)%nat end) ch.
+
+Lemma tsize_dir a ch : tsize (TDir a ch) = S (ksize ch).
+Proof. reflexivity. Qed.
+Lemma ksize_cons nm c r : ksize ((nm, c) :: r) = (tsize c + ksize r)%nat.
+Proof. reflexivity. Qed.
+Lemma tsize_pos t : (1 <= tsize t)%nat.
+Proof. destruct t; cbn; lia. Qed.
+
+Definition walk_kids (path : list bytes) (ch : list (bytes * tree)) : list file_event :=
+  flat_map (fun p => match p with (nm, c) => walk (path ++ [nm]) nm c end) ch.
+
+Lemma walk_dir path name a ch : walk path name (TDir a ch) = event_of path name (TDir a ch) :: walk_kids path ch.
+Proof. reflexivity. Qed.
+
+(* the next event, if any, does not belong to the directory d: it lies higher up *)
+Definition stops (d : list bytes) (rest : list file_event) : Prop :=
+  match rest with
+  | [] => True
+  | g :: _ => (length (removelast (fe_path g)) < length d)%nat
+  end.
+
+Lemma path_eqb_length p q : length p <> length q -> FS.path_eqb p q = false.
+Proof. intros H. apply FS.path_eqb_neq. intros ->. apply H. reflexivity. Qed.
+
+(* the kind tests of tar() on the FileMode of an st_mode *)
+Lemma kind_tests m : m < 2 ^ 16 ->
+  let fm := stat_to_filemode m in
+  let ty := N.land m S_IFMT in
+  fm_is_dir fm = (ty =? S_IFDIR) /\
+  fm_is_regular fm = negb ((ty =? S_IFBLK) || (ty =? S_IFCHR) || (ty =? S_IFDIR) || (ty =? S_IFIFO) || (ty =? S_IFLNK) || (ty =? S_IFSOCK)) /\
+  fm_is_symlink fm = (ty =? S_IFLNK) /\
+  fm_is_device fm = ((ty =? S_IFBLK) || (ty =? S_IFCHR)).
+Proof.
+  intros Hm. pose proof (sweep 16 _ kind_sweep m Hm) as H. unfold kind_check in H.
+  rewrite !andb_true_iff in H. destruct H as [[[H1 H2] H3] H4].
+  apply eqb_prop in H1, H2, H3, H4. cbv zeta. auto.
+Qed.
+
+Definition ev_goal (c : tree) : Prop :=
+  forall path name rest fuel, wf_tree c -> stops path rest -> (2 * tsize c <= fuel)%nat ->
+  tar_ev fuel (event_of path name c)
+         (match c with TDir _ ch => walk_kids path ch | _ => [] end ++ rest) =
+  match tar_tree path name c with Some els => Some (els, rest) | None => None end.
+
+Lemma removelast_snoc {A} (l : list A) x : removelast (l ++ [x]) = l.
+Proof. apply removelast_last. Qed.
+
+Lemma walk_head path name t : exists tl, walk path name t = event_of path name t :: tl.
+Proof. destruct t; eexists; reflexivity. Qed.
+
+Lemma kids_loop path : forall ch,
+  Forall (fun p => ev_goal (snd p)) ch -> wf_kids ch ->
+  forall rest fuel n items acc, stops path rest -> (2 * ksize ch + 1 <= fuel)%nat ->
+  dir_loop fuel path (walk_kids path ch ++ rest) n items acc =
+  match tar_kids path ch with
+  | Some enc => match dir_body enc n items acc with (b, n', items') => Some (b, n', items', rest) end
+  | None => None
+  end.
+Proof.
+  induction ch as [|[nm c] r IH]; intros Hg Hwf rest fuel n items acc Hst Hfuel.
+  - destruct fuel as [|f]; [lia|]. cbn [walk_kids flat_map app tar_kids dir_body].
+    destruct rest as [|g rest']; cbn [dir_loop]; [reflexivity|].
+    unfold stops in Hst.
+    assert (E : FS.path_eqb (removelast (fe_path g)) path = false).
+    { apply FS.path_eqb_neq. intros E. rewrite E in Hst. exact (Nat.lt_irrefl _ Hst). }
+    rewrite E. reflexivity.
+  - inversion Hg as [|? ? Hc Hgr]; subst. inversion Hwf as [|? ? [Hgn Hwc] Hwr]; subst. cbn [fst snd] in *.
+    rewrite ksize_cons in Hfuel. pose proof (tsize_pos c) as Hpos.
+    destruct fuel as [|f]; [lia|].
+    unfold walk_kids. cbn [flat_map]. fold (walk_kids path r).
+    assert (Hwalk : walk (path ++ [nm]) nm c =
+                    event_of (path ++ [nm]) nm c :: match c with TDir _ ch' => walk_kids (path ++ [nm]) ch' | _ => [] end).
+    { destruct c; reflexivity. }
+    rewrite Hwalk. cbn [app dir_loop].
+    assert (Hp : fe_path (event_of (path ++ [nm]) nm c) = path ++ [nm]) by reflexivity.
+    rewrite Hp, removelast_snoc, FS.path_eqb_refl. cbn [negb].
+    assert (Hnm : fe_name (event_of (path ++ [nm]) nm c) = nm) by reflexivity. rewrite Hnm.
+    rewrite <- app_assoc.
+    rewrite (Hc (path ++ [nm]) nm (walk_kids path r ++ rest) f Hwc); [| |lia].
+    + rewrite tar_kids_cons. destruct (tar_tree (path ++ [nm]) nm c) as [els|]; [|reflexivity].
+      rewrite (IH Hgr Hwr rest f _ _ _ Hst ltac:(lia)).
+      destruct (tar_kids path r) as [rs|]; [|reflexivity]. cbn [dir_body]. reflexivity.
+    + (* what follows the child lies in this directory or higher up *)
+      unfold stops. destruct r as [|[nm' c'] r'].
+      * cbn [walk_kids flat_map app]. destruct rest as [|g rest']; [exact I|].
+        unfold stops in Hst. rewrite app_length. cbn [length]. lia.
+      * unfold walk_kids. cbn [flat_map]. destruct (walk_head (path ++ [nm']) nm' c') as [tl ->].
+        cbn [app]. change (fe_path (event_of (path ++ [nm']) nm' c')) with (path ++ [nm']).
+        rewrite removelast_snoc, app_length. cbn [length]. lia.
+Qed.
+
+Lemma ev_goal_all : forall c, ev_goal c.
+Proof.
+  induction c as [a ch IH|a d|a tg|a r|a] using tree_ind'; intros path name rest fuel Hwf Hst Hfuel.
+  - apply wf_tree_dir in Hwf. destruct Hwf as (Ha & Hty & Hlen & Hk).
+    rewrite tsize_dir in Hfuel. destruct fuel as [|f]; [lia|].
+    destruct (kind_tests (t_mode a) (wa_mode a Ha)) as (Kd & Kr & Kl & Kv). cbv zeta in *.
+    unfold type_is in Hty. rewrite Hty in *.
+    cbn [tar_ev]. change (fe_mode (event_of path name (TDir a ch))) with (stat_to_filemode (t_mode a)).
+    unfold supported. rewrite Kd. cbn [N.eqb orb negb]. change (S_IFDIR =? S_IFDIR) with true. cbn [orb negb].
+    change (fe_path (event_of path name (TDir a ch))) with path.
+    rewrite (kids_loop path ch IH Hk rest f _ _ _ Hst ltac:(lia)).
+    rewrite tar_tree_dir. cbv zeta. destruct (tar_kids path ch) as [enc|]; [|reflexivity].
+    destruct (dir_body enc _ [] []) as [[body n'] items'].
+    destruct (goodbye_of n' items'); reflexivity.
+  - destruct Hwf as (Ha & Hty & Hs). destruct fuel as [|f]; [cbn in Hfuel; lia|].
+    destruct (kind_tests (t_mode a) (wa_mode a Ha)) as (Kd & Kr & Kl & Kv). cbv zeta in *.
+    unfold type_is in Hty. rewrite Hty in *.
+    cbn [tar_ev app]. change (fe_mode (event_of path name (TFile a d))) with (stat_to_filemode (t_mode a)).
+    unfold supported. rewrite Kd, Kr. reflexivity.
+  - destruct Hwf as (Ha & Hty & Hs). destruct fuel as [|f]; [cbn in Hfuel; lia|].
+    destruct (kind_tests (t_mode a) (wa_mode a Ha)) as (Kd & Kr & Kl & Kv). cbv zeta in *.
+    unfold type_is in Hty. rewrite Hty in *.
+    cbn [tar_ev app]. change (fe_mode (event_of path name (TLink a tg))) with (stat_to_filemode (t_mode a)).
+    unfold supported. rewrite Kd, Kr, Kl. reflexivity.
+  - destruct Hwf as (Ha & Hty). destruct fuel as [|f]; [cbn in Hfuel; lia|].
+    destruct (kind_tests (t_mode a) (wa_mode a Ha)) as (Kd & Kr & Kl & Kv). cbv zeta in *.
+    cbn [tar_ev app]. change (fe_mode (event_of path name (TDev a r))) with (stat_to_filemode (t_mode a)).
+    unfold supported. rewrite Kd, Kr, Kl, Kv.
+    destruct Hty as [E|E]; unfold type_is in E; rewrite E; reflexivity.
+  - destruct Hwf as (Ha & Hty). destruct fuel as [|f]; [cbn in Hfuel; lia|].
+    destruct (kind_tests (t_mode a) (wa_mode a Ha)) as (Kd & Kr & Kl & Kv). cbv zeta in *.
+    cbn [tar_ev app]. change (fe_mode (event_of path name (TOther a))) with (stat_to_filemode (t_mode a)).
+    unfold supported. rewrite Kd, Kr, Kl, Kv.
+    destruct Hty as [E|E]; unfold type_is in E; rewrite E; reflexivity.
+Qed.
+
+Lemma walk_length : forall t path name, length (walk path name t) = tsize t.
+Proof.
+  induction t as [a ch IH|a d|a tg|a r|a] using tree_ind'; intros path name; try reflexivity.
+  rewrite walk_dir, tsize_dir. cbn [length]. f_equal.
+  induction ch as [|[nm c] r IHr]; [reflexivity|].
+  inversion IH as [|? ? Hc Hr]; subst. unfold walk_kids. cbn [flat_map]. rewrite app_length, ksize_cons.
+  cbn [snd] in Hc. rewrite Hc. f_equal. apply IHr, Hr.
+Qed.
+
+(* Tar() fed with the walk of a tree writes the elements of tar_tree: the reconstruction of the
+   nesting from the flat event stream (fsBufReader, path.Dir(f.Path) == dir) is right *)
+Theorem tar_events_walk t : wf_tree t -> tar_events (walk [] [] t) = tar_tree [] [] t.
+Proof.
+  intros Hwf. unfold tar_events.
+  assert (Hw : walk [] [] t = event_of [] [] t :: (match t with TDir _ ch => walk_kids [] ch | _ => [] end ++ []))
+    by (rewrite app_nil_r; destruct t; reflexivity).
+  pose proof (walk_length t [] []) as Hl. rewrite Hw in Hl. rewrite Hw. cbv beta iota. rewrite Hl.
+  assert (Hf : (2 * tsize t <= 2 * tsize t + 2)%nat) by lia.
+  rewrite (ev_goal_all t [] [] [] _ Hwf I Hf).
+  destruct (tar_tree [] [] t); reflexivity.
+Qed.
+
+(* ---------- Part 4: the listing order of the xattr keys does not matter ---------- *)
+
+Definition canon_attrs (a : attrs) : attrs := mkAttrs (t_mode a) (t_uid a) (t_gid a) (t_mtime a) (sort_xattrs (t_xattrs a)).
+
+Fixpoint canon (t : tree) : tree :=
+  match t with
+  | TDir a ch => TDir (canon_attrs a) (map (fun p => match p with (nm, c) => (nm, canon c) end) ch)
+  | TFile a d => TFile (canon_attrs a) d
+  | TLink a tg => TLink (canon_attrs a) tg
+  | TDev a r => TDev (canon_attrs a) r
+  | TOther a => TOther (canon_attrs a)
+  end.
+
+From DS Require Import Proofs.XattrSort.
+
+Definition head_of (a : attrs) : list elem :=
+  entry_elem (filemode_to_stat (stat_to_filemode (t_mode a))) (u64 (t_uid a)) (u64 (t_gid a)) (t_mtime a)
+  :: map xattr_elem (sort_xattrs (t_xattrs a)).
+
+Lemma head_elems_attrs path name t : head_elems (event_of path name t) = head_of (tree_attrs t).
+Proof. destruct t; reflexivity. Qed.
+
+Lemma head_of_canon a : head_of (canon_attrs a) = head_of a.
+Proof. unfold head_of, canon_attrs. cbn [t_mode t_uid t_gid t_mtime t_xattrs]. now rewrite sort_xattrs_idem. Qed.
+
+(* the archive depends on the set of extended attributes only, not on how they are listed *)
+Lemma tar_tree_canon : forall t path name, tar_tree path name (canon t) = tar_tree path name t.
+Proof.
+  induction t as [a ch IH|a d|a tg|a r|a] using tree_ind'; intros path name.
+  - cbn [canon]. rewrite !tar_tree_dir. cbv zeta. rewrite !head_elems_attrs. cbn [tree_attrs]. rewrite head_of_canon.
+    assert (Hk : tar_kids path (map (fun p => match p with (nm, c) => (nm, canon c) end) ch) = tar_kids path ch).
+    { induction ch as [|[nm c] r IHr]; [reflexivity|].
+      inversion IH as [|? ? Hc Hr]; subst. cbn [map]. rewrite !tar_kids_cons. cbn [snd] in Hc.
+      rewrite Hc, (IHr Hr). reflexivity. }
+    rewrite Hk. reflexivity.
+  - cbn [canon]. rewrite !tar_tree_file, !head_elems_attrs. cbn [tree_attrs]. now rewrite head_of_canon.
+  - cbn [canon]. rewrite !tar_tree_link, !head_elems_attrs. cbn [tree_attrs]. now rewrite head_of_canon.
+  - cbn [canon]. rewrite !tar_tree_dev, !head_elems_attrs. cbn [tree_attrs]. now rewrite head_of_canon.
+  - reflexivity.
+Qed.
+
+(* two listings of the same attributes of one object *)
+Definition same_attrs (a1 a2 : attrs) : Prop :=
+  t_mode a1 = t_mode a2 /\ t_uid a1 = t_uid a2 /\ t_gid a1 = t_gid a2 /\ t_mtime a1 = t_mtime a2 /\
+  Permutation (t_xattrs a1) (t_xattrs a2) /\ NoDup (keys (t_xattrs a1)).
+
+Lemma canon_attrs_same a1 a2 : same_attrs a1 a2 -> canon_attrs a1 = canon_attrs a2.
+Proof.
+  intros (Hm & Hu & Hg & Ht & Hp & Hn). unfold canon_attrs. rewrite Hm, Hu, Hg, Ht, (sort_xattrs_perm _ _ Hp Hn). reflexivity.
+Qed.
+
+(* the same tree seen twice, with the attributes of every object listed in any order *)
+Inductive same_tree : tree -> tree -> Prop :=
+| same_dir a1 a2 ch1 ch2 : same_attrs a1 a2 -> Forall2 (fun p q => fst p = fst q /\ same_tree (snd p) (snd q)) ch1 ch2 ->
+    same_tree (TDir a1 ch1) (TDir a2 ch2)
+| same_file a1 a2 d : same_attrs a1 a2 -> same_tree (TFile a1 d) (TFile a2 d)
+| same_link a1 a2 tg : same_attrs a1 a2 -> same_tree (TLink a1 tg) (TLink a2 tg)
+| same_dev a1 a2 r : same_attrs a1 a2 -> same_tree (TDev a1 r) (TDev a2 r)
+| same_other a1 a2 : same_attrs a1 a2 -> same_tree (TOther a1) (TOther a2).
+
+Lemma same_tree_canon : forall t1 t2, same_tree t1 t2 -> canon t1 = canon t2.
+Proof.
+  fix IH 3. intros t1 t2 H. destruct H as [a1 a2 ch1 ch2 Ha Hch|a1 a2 d Ha|a1 a2 tg Ha|a1 a2 r Ha|a1 a2 Ha];
+    cbn [canon]; rewrite (canon_attrs_same _ _ Ha); try reflexivity.
+  f_equal. induction Hch as [|[n1 c1] [n2 c2] r1 r2 [Hn Hc] Hr IHr]; [reflexivity|].
+  cbn [map fst snd] in *. subst n2. rewrite (IH _ _ Hc), IHr. reflexivity.
+Qed.
+
+(* Packing the same tree twice yields identical archive bytes, whatever order llistxattr
+   (or the Go map iteration) delivers the attribute keys in. *)
+Theorem tar_deterministic t1 t2 : same_tree t1 t2 -> tar_of_tree t1 = tar_of_tree t2.
+Proof.
+  intros H. unfold tar_of_tree. rewrite <- (tar_tree_canon t1), <- (tar_tree_canon t2), (same_tree_canon _ _ H). reflexivity.
+Qed.
